@@ -28,9 +28,28 @@ def main(c):
         "baseline vocabulary = xterm: CUP, SGR 4/8-bit colours, DECSET 1/25/1002-1006/1049/2004, DECKPAM/DECKPNM, DECSCUSR, OSC 8, OSC 22, DA1, DSR 6",
         "start-up probes (queries, the blind DECSET 2048, the OSC 66 width probe) are allowed before the handshake ends",
         "palette distance in exact integers (900,3481,121); any entry at minimal distance is accepted",
+        "what the replies establish depends neither on the size of the application's event queue (Options.EventQueueSize) "
+        "nor on the letter case of hexadecimal strings in replies (xterm ctlseqs: 'hexadecimal', no case prescribed)",
+        "the name in the XTVERSION reply is a reply to a start-up query: 'tmux 3.4' counts as advertising Unicode core; whether "
+        "mode 2027 is then set by New (it is not) and reset on Close is not judged: used-only-when-advertised is all the text demands",
     ]
     if not c.replay:
-        c.model_check(specs, "MC_Palette.tla", "MC_Palette.cfg" if c.tier == "quick" else "MC_Palette_deep.cfg", workers=16)
+        # the palette theorem and the start-up handshake models (repaired shape: exact for every queue capacity; the two
+        # shapes as found - report awaited before the queue is read, OSC 176 reply posted without blocking - are refuted)
+        from concurrent.futures import ThreadPoolExecutor
+        models = [("MC_Palette.tla", "MC_Palette.cfg" if c.tier == "quick" else "MC_Palette_deep.cfg", 8, False),
+                  ("MC_CapsHandshake.tla", "MC_CapsHandshake.cfg", 4, False),
+                  ("MC_CapsHandshake.tla", "MC_CapsHandshake_asfound.cfg", 1, True),
+                  ("MC_CapsHandshake.tla", "MC_CapsHandshake_lossy.cfg", 1, True)]
+        with ThreadPoolExecutor(len(models)) as ex:
+            res = list(ex.map(lambda m: c.model_check(specs, m[0], m[1], workers=m[2], expect_violation=m[3])[0], models))
+        c.cov["models"].sort(key=lambda st: (st["model"], st["cfg"]))
+        c.cov["states"] = sum(st.get("states", 0) for st in c.cov["models"])
+        c.cov["transitions"] = sum(st.get("transitions", 0) for st in c.cov["models"])
+        c.cov["handshake_model_exact_for_every_queue_size"] = bool(res[1])
+        c.cov["handshake_as_found_shapes_refuted"] = int(not res[2]) + int(not res[3])
+        if not res[1]:
+            c.notes.append("MODEL: MC_CapsHandshake (repaired shape) violates an invariant")
     replay_kind = None
     if c.replay:
         d = json.load(open(c.replay))
@@ -65,6 +84,7 @@ def main(c):
     return c.finish(
         rule="session = advertised feature subset (15 features; quick: every single feature with both ways of advertising it, "
              "every pair, empty/full, 150 random subsets; thorough: all 2^15) x start-up, three frames exercising RGB/underline/"
-             "width fallbacks, Close; palette = RGB->index fallback for a boundary-rich grid (quick) or all 2^24 colours (thorough), "
+             "width fallbacks, Close; plus terminal-name / DA1-class sessions, sessions with event queues of 1..16 entries and "
+             "sessions whose XTGETTCAP / tertiary-DA replies use lower- or mixed-case hex digits; palette = RGB->index fallback for a boundary-rich grid (quick) or all 2^24 colours (thorough), "
              "256 colours per event; distinct = distinct descriptor",
         exhaustive=(c.tier == "thorough"))
